@@ -123,6 +123,7 @@ def out_check(c, cur, st):
         v = int(cur)
         if c == '0': return str(v) == st or cur == st
         if c == '2': return True
+        if c == '3': return abs(v % 1000 - int(st) % 1000) <= 400          # the tolerance checker of the harness (OutNear)
     except ValueError:
         pass
     return None
@@ -155,6 +156,7 @@ def run_oracles(prog, meta, sessions):
     tdx_since_bu = set()            # the tasks such top-down sessions executed
     tdx_before_last_bu = set()
     bu_exec_last = set()            # the tasks the last bottom-up build executed
+    hist_stamps = {}                # (task, kind, target) -> stamp taken when the dependency was created, latest execution, across sessions
     task_out = {}
     wf = prog.kind == 'wf'
     for si, s in enumerate(sessions):
@@ -572,6 +574,27 @@ def run_oracles(prog, meta, sessions):
                     if es is not None and es != st:
                         out.append(('C09', 'stamp-differs', '%s: task %d dependency %s%s recorded stamp %s but the stamp taken at creation was %s' % (where, t, k, tgt, st, es)))
 
+        # ---- C09: a recorded stamp is the one taken when the dependency was created, and stays that until the task executes again
+        # (across sessions: nothing re-stamps a dependency when it is merely checked)
+        started = set(int(e.split()[1]) for e in s.events if e.startswith('XS '))
+        for k_ in [k_ for k_ in hist_stamps if k_[0] in started]: del hist_stamps[k_]
+        for k_, v_ in ev_stamps.items():
+            if k_[0] in started: hist_stamps[k_] = v_
+        if not ab and '!BAD' not in nodes:
+            done_now = set(completed)
+            for e in s.events:
+                f = e.split()
+                if f[0] == 'XS': done_now.discard(int(f[1]))
+                elif f[0] == 'XE': done_now.add(int(f[1]))
+            for (t_, k_, tgt_), st_ in sorted(hist_stamps.items()):
+                if t_ in started or t_ not in done_now: continue          # executed in this session: judged above
+                nd = nodes.get('T%d' % t_)
+                if nd is None: continue
+                rec_ = [st2 for (k2, tgt2, c2, st2) in nd['outs'] if k2 == k_ and tgt2 == tgt_]
+                if len(rec_) == 1 and rec_[0] != st_:
+                    out.append(('C09', 'stamp-drifted', '%s: the dependency %s%s of task %d carries stamp %s, but the stamp taken when the task created it (in an earlier session) was %s and the task has not executed since' % (where, k_, tgt_, t_, rec_[0], st_)))
+                    break
+
         # ---- C09: the verdict of a task-dependency check is the output checker's verdict on the stored stamp
         for e in s.events:
             f = e.split()
@@ -580,7 +603,7 @@ def run_oracles(prog, meta, sessions):
             elif f[0] == 'CTE' and int(f[1]) in task_out:
                 c, st, inc = int(f[2]), int(f[3]), f[4] == '1'
                 o = task_out[int(f[1])]
-                exp = (o != st) if c == 0 else ((o % 2) != st if c == 1 else False)
+                exp = (o != st) if c == 0 else ((o % 2) != st if c == 1 else (abs(o % 1000 - st % 1000) > 400 if c == 3 else False))
                 if exp != inc:
                     out.append(('C09', 'check-task-verdict', '%s: require dependency on task %s (checker %d, stamp %d) was reported %s although its output is %d' % (where, f[1], c, st, 'inconsistent' if inc else 'consistent', o)))
 
